@@ -32,7 +32,7 @@ def c02Sources : List (String × String) := [
   ("tensordict/base.py:TensorDictBase.repeat", "7d098c6e0d06a307"),
   ("tensordict/base.py:TensorDictBase.gather", "29ccddf86037f3c2"),
   ("tensordict/_torch_func.py:_gather", "cd681bf4d41dc1ca"),
-  ("tensordict/_torch_func.py:_stack", "ea4d220b8c94a36d"),
+  ("tensordict/_torch_func.py:_stack", "c4ac011ad3665ecc"),
   ("tensordict/_torch_func.py:_cat", "dac0d495e3f1b6b1"),
   ("tensordict/_torch_func.py:_split", "062a5b309b7a7a6b"),
   ("tensordict/_torch_func.py:_unbind", "a0481eab0812d275")
